@@ -3,6 +3,7 @@
   Only property statements, their proofs from the helper lemmas, and non-vacuity examples.
 -/
 import Oryx.Proofs.Avc
+import Oryx.Gen.Avc
 namespace Oryx.Props.C12
 open Oryx Oryx.Res Oryx.Avc
 
@@ -107,6 +108,21 @@ theorem decoders_never_panic (bs : Bytes) :
     ∀ n, 1 ≤ n → sampleUnmarshal n bs ≠ .panic :=
   ⟨naluUnmarshal_ne_panic bs, recordUnmarshal_ne_panic bs,
    fun n hn => sampleLoop_ne_panic n hn _ bs (Nat.le_refl _)⟩
+
+/-- The String() helpers of the package (translated mechanically from the Go source on every run) are
+total over the whole range of their integer types — `NALUType`/`AVCLevel` are uint8, `AVCProfile` is uint16;
+the statement is for every natural number. A helper rewritten as an index into a table would make the
+generated definition a checked lookup and this theorem false for the out-of-range values. -/
+theorem enum_helpers_total (v : Nat) :
+    (Gen.Avc.NALUType_String v).isPanic = false ∧ (Gen.Avc.AVCLevel_String v).isPanic = false ∧
+    (Gen.Avc.AVCProfile_String v).isPanic = false := by
+  refine ⟨?_, ?_, ?_⟩
+  · simp only [Gen.Avc.NALUType_String, Res.isPanic_ite, Res.isPanic_ok, ite_self]
+  · simp only [Gen.Avc.AVCLevel_String, Res.isPanic_ite, Res.isPanic_ok, ite_self]
+  · simp only [Gen.Avc.AVCProfile_String, Res.isPanic_ite, Res.isPanic_ok, ite_self]
+
+example : Gen.Avc.translatedHelpers = ["AVCLevel_String", "AVCProfile_String", "NALUType_String"] ∧
+    Gen.Avc.untranslatedHelpers = [] := by decide
 
 /-! ### non-vacuity: concrete inhabitants of the hypotheses -/
 
